@@ -190,6 +190,19 @@ def run(repo, run, tier):
     run.check(R1, "declast.Declaration.gen_attrs", "sorted(attrs)" in s and 'attr[0] == "_"' in s and
               '"{}({})".format(attr, value)' in s,
               "gen_attrs must render every user attribute as +name or +name(value)", dm.loc(ga))
+    # only an *unset* attribute is left out: 0 and "" are values (+rank(0), +len(0))
+    skips = [c for c in ast.walk(ga) if isinstance(c, ast.Continue)]
+    for c in skips:
+        tests = pyflow.dominating_tests(c, stop=ga)
+        if not tests:
+            continue
+        t, pol = tests[0]
+        txt = str(dm.seg(t))
+        if "value" not in txt:
+            continue
+        run.check(R1, "declast.Declaration.gen_attrs:unset-only", txt.endswith("is None") and pol,
+                  "an attribute is left out of the rendering under `%s%s`: only None means unset - +rank(0) or +len(0) "
+                  "disappear from gen_decl() and from every re-parse of it" % ("" if pol else "not ", txt), dm.loc(c))
 
     # nested declarations (template arguments, parameters) are rendered by a rendering call on the nested
     # node - reading one field of it (e.g. its typemap's internal name) drops qualifiers, pointers and spelling
@@ -472,3 +485,6 @@ def run(repo, run, tier):
     from checks import c11
     from sa.report import import_rules
     import_rules(run, R6, c11, repo, {"C11.R4", "C11.R5"}, only=lambda c: c.startswith(("declast.", "todict.")))
+    # a native type is rendered for C with the C spelling of the same type (C02.R13)
+    from checks import c02
+    import_rules(run, R5, c02, repo, {"C02.R13"}, only=lambda c: c.startswith("typemap[") and "c_type" in c)
